@@ -141,6 +141,37 @@ func DecodeTyped(kind string, b []byte) (r Typed) {
 	return
 }
 
+// usedJSON is, per kind, a well-formed envelope with every optional member present: what a
+// variable holds after an earlier decode.
+var usedJSON = map[string]string{
+	"Message":         `{"id":"old","from":"o@f.x/i","pp":"o@p.x/i","to":"o@t.x/i","metadata":{"old":"1"},"type":"text/plain","content":"old"}`,
+	"Notification":    `{"id":"old","from":"o@f.x/i","pp":"o@p.x/i","to":"o@t.x/i","metadata":{"old":"1"},"event":"failed","reason":{"code":9,"description":"old"}}`,
+	"RequestCommand":  `{"id":"old","from":"o@f.x/i","pp":"o@p.x/i","to":"o@t.x/i","metadata":{"old":"1"},"method":"set","uri":"/old","type":"text/plain","resource":"old"}`,
+	"ResponseCommand": `{"id":"old","from":"o@f.x/i","pp":"o@p.x/i","to":"o@t.x/i","metadata":{"old":"1"},"method":"get","status":"failure","reason":{"code":9,"description":"old"},"type":"text/plain","resource":"old"}`,
+	"Session":         `{"id":"old","from":"o@f.x/i","pp":"o@p.x/i","to":"o@t.x/i","metadata":{"old":"1"},"state":"authenticating","encryptionOptions":["none","tls"],"compressionOptions":["none"],"schemeOptions":["plain"],"scheme":"plain","authentication":{"password":"b2xk"},"reason":{"code":9,"description":"old"}}`,
+}
+
+// DecodeTypedReused decodes b into a variable that already holds an earlier envelope of the
+// same kind (json.Unmarshal(b, &v) on a used v): the result must not depend on what v held.
+func DecodeTypedReused(kind string, b []byte) (r Typed) {
+	defer func() {
+		if p := recover(); p != nil {
+			r.Panic = fmt.Sprint(p)
+			r.Site = panicSite()
+			r.Env = nil
+		}
+	}()
+	v := NewOf(kind)
+	if err := json.Unmarshal([]byte(usedJSON[kind]), v); err != nil {
+		panic("harness: usedJSON of " + kind + " does not decode: " + err.Error())
+	}
+	r.Err = json.Unmarshal(b, v)
+	if r.Err == nil {
+		r.Env = v
+	}
+	return
+}
+
 // Marshal runs json.Marshal under recover.
 func Marshal(v interface{}) (b []byte, err error, pan string) {
 	defer func() {
